@@ -7,6 +7,7 @@ package c41
 
 type gview struct {
 	admin   int
+	former  []int // former admins
 	holders map[int][]int // role -> ids named in accepted assignments
 	delegs  [][3]int      // accepted delegations (from, to, role)
 	funcs   map[int][]int // role -> function indices assigned
@@ -142,6 +143,8 @@ func (r *runner) genHistory(stub bool) *history {
 				o.A = g.admin
 				if o.A < 0 || rng.Intn(10) == 0 {
 					o.A = regular()
+				} else if len(g.former) > 0 && rng.Intn(5) == 0 {
+					o.A = g.former[rng.Intn(len(g.former))]
 				}
 				for k := rng.Intn(4); k >= 0; k-- {
 					o.Fns = append(o.Fns, rng.Intn(len(w.fns)))
@@ -155,6 +158,8 @@ func (r *runner) genHistory(stub bool) *history {
 				o.A = g.admin
 				if o.A < 0 || rng.Intn(10) == 0 {
 					o.A = regular()
+				} else if len(g.former) > 0 && rng.Intn(5) == 0 {
+					o.A = g.former[rng.Intn(len(g.former))]
 				}
 				for k := rng.Intn(3); k >= 0; k-- {
 					o.Persons = append(o.Persons, regular())
@@ -177,6 +182,11 @@ func (r *runner) genHistory(stub bool) *history {
 					o.A = hs[rng.Intn(len(hs))]
 				}
 				o.B = anyID()
+				// sometimes a delegate tries to hand its delegated role on
+				if len(g.delegs) > 0 && rng.Intn(7) == 0 {
+					d := g.delegs[rng.Intn(len(g.delegs))]
+					o.A, o.Role = d[1], d[2]
+				}
 				o.Level = 1
 				switch q := rng.Intn(24); {
 				case q == 0:
@@ -206,6 +216,12 @@ func (r *runner) genHistory(stub bool) *history {
 				if len(g.delegs) > 0 && rng.Intn(6) > 0 {
 					d := g.delegs[rng.Intn(len(g.delegs))]
 					o.A, o.B, o.Role = d[0], d[1], d[2]
+					// sometimes another holder of the role, or the delegate itself, asks for the withdrawal
+					if hs := g.holders[o.Role]; len(hs) > 0 && rng.Intn(4) == 0 {
+						o.A = hs[rng.Intn(len(hs))]
+					} else if rng.Intn(12) == 0 {
+						o.A = d[1]
+					}
 				}
 				actor = o.A
 			default:
@@ -285,6 +301,7 @@ func (r *runner) genHistory(stub bool) *history {
 			case "init":
 				g.admin = o.A
 			case "transfer":
+				g.former = append(g.former, g.admin)
 				g.admin = o.B
 			case "funcs":
 				g.funcs[o.Role] = append(g.funcs[o.Role], o.Fns...)
